@@ -1,5 +1,6 @@
 import PoxModel.Proofs.MatchSubsume
 import PoxModel.Proofs.Overlap
+import PoxModel.Model.FlowMod
 set_option linter.unusedSimpArgs false
 /-! `eqMatch (ofWire a) (ofWire b)` — `ofp_match.__eq__` on two matches received in flow-mods, the test of the strict commands —
 is the standard-level "identical header fields" `Spec.identical a b` (each description subsumes the other), for transmitted
@@ -145,5 +146,72 @@ theorem strict_iff (a b : OfMatch) (ha : MatchOk a) (hb : MatchOk b) :
     · rw [da]; exact ha.hostDst
     · rw [sb]; exact hb.hostSrc
     · rw [db]; exact hb.hostDst
+
+/-! ### CHECK_OVERLAP: `_matches_overlap` is the standard's overlap -/
+open Pox.FlowMod
+
+theorem ofWire_view (r : OfMatch) (hp : PrereqExact r) (f : Fld) :
+    (ofWire r).view f = if Spec.significant r f.bit = true then some (r.get f) else none := by
+  have h := sig_agree r hp f
+  unfold view
+  rw [ofWire_get]
+  cases hw : (ofWire r).wild f <;> simp [hw] at h <;> simp [← h]
+
+theorem viewOverlap_wire (a b : OfMatch) (ha : PrereqExact a) (hb : PrereqExact b) (f : Fld) :
+    viewOverlap ((ofWire a).view f) ((ofWire b).view f) =
+      Spec.FCompat (Spec.significant a f.bit) (Spec.significant b f.bit) (a.get f) (b.get f) := by
+  rw [ofWire_view a ha, ofWire_view b hb]
+  cases Spec.significant a f.bit <;> cases Spec.significant b f.bit <;> simp [viewOverlap, Spec.FCompat]
+
+theorem nwOverlap_views (ca cb x y : Nat) (ha : ca ≤ 32) (hb : cb ≤ 32) :
+    nwOverlap (nwView ca x) (nwView cb y) = Spec.prefixEq (max ca cb) x y := by
+  unfold nwView Spec.prefixEq
+  by_cases h1 : 32 ≤ ca
+  · have : 32 ≤ max ca cb := Nat.le_trans h1 (Nat.le_max_left _ _)
+    simp [h1, nwOverlap, this]
+  · by_cases h2 : 32 ≤ cb
+    · have : 32 ≤ max ca cb := Nat.le_trans h2 (Nat.le_max_right _ _)
+      simp [h1, h2, nwOverlap, this]
+    · have hm : ¬ 32 ≤ max ca cb := by
+        have : max ca cb = ca ∨ max ca cb = cb := by
+          rcases Nat.le_total ca cb with h | h
+          · exact .inr (Nat.max_eq_right h)
+          · exact .inl (Nat.max_eq_left h)
+        rcases this with h | h <;> rw [h] <;> assumption
+      have e : 32 - min (32 - ca) (32 - cb) = max ca cb := by
+        rcases Nat.le_total ca cb with h | h
+        · rw [Nat.max_eq_right h, Nat.min_eq_right (by omega)]; omega
+        · rw [Nat.max_eq_left h, Nat.min_eq_left (by omega)]; omega
+      simp only [h1, h2, if_false, nwOverlap, e, hm, decide_false, Bool.false_or]
+      rw [Bool.eq_iff_iff]
+      simp only [beq_iff_eq, clearLow_eq_iff]
+
+theorem FCompat_tos (sa sb : Bool) (x y : Nat) (hx : x % 4 = 0) (hy : y % 4 = 0) :
+    Spec.FCompat sa sb x y = Spec.FCompat sa sb (x / 4) (y / 4) := by
+  have : (x == y) = (x / 4 == y / 4) := by
+    rw [Bool.eq_iff_iff]; simp only [beq_iff_eq]; omega
+  simp [Spec.FCompat, this]
+
+/-- CHECK_OVERLAP: the (repaired) code's test on two matches received in flow-mods is the standard's overlap relation -/
+theorem code_overlaps (a b : OfMatch) (ha : PrereqExact a) (hb : PrereqExact b) (ta : a.nwTos % 4 = 0) (tb : b.nwTos % 4 = 0) :
+    overlapsWith (ofWire a) (ofWire b) = Spec.overlaps a b := by
+  rw [Spec.overlaps_eq]
+  unfold overlapsWith
+  simp only [Fld.all, List.all_cons, List.all_nil, Bool.and_true, viewOverlap_wire a b ha hb]
+  simp only [srcView, dstView, srcIgn_agree a ha, srcIgn_agree b hb, dstIgn_agree a ha, dstIgn_agree b hb]
+  rw [nwOverlap_views _ _ _ _ (Spec.srcIgn_le a) (Spec.srcIgn_le b), nwOverlap_views _ _ _ _ (Spec.dstIgn_le a) (Spec.dstIgn_le b)]
+  simp only [OfMatch.get, Fld.bit]
+  rw [FCompat_tos _ _ _ _ ta tb]
+  have hs : (ofWire a).nwSrc = a.nwSrc := rfl
+  have hs' : (ofWire b).nwSrc = b.nwSrc := rfl
+  have hd : (ofWire a).nwDst = a.nwDst := rfl
+  have hd' : (ofWire b).nwDst = b.nwDst := rfl
+  rw [hs, hs', hd, hd']
+  simp only [Spec.W_IN_PORT, Spec.W_DL_SRC, Spec.W_DL_DST, Spec.W_DL_VLAN, Spec.W_DL_VLAN_PCP, Spec.W_DL_TYPE, Spec.W_NW_TOS,
+    Spec.W_NW_PROTO, Spec.W_TP_SRC, Spec.W_TP_DST]
+  ac_rfl
+
+theorem overlaps_code (a b : OfMatch) (ha : MatchOk a) (hb : MatchOk b) : overlapsWith (ofWire a) (ofWire b) = Spec.overlaps a b :=
+  code_overlaps a b ha.prereq hb.prereq ha.tos hb.tos
 
 end Pox.OF
